@@ -64,6 +64,31 @@ Theorem C05_consensus_refuses_absent_removal :
 Proof. exact apply_updates_absent_removal. Qed.
 Print Assumptions C05_consensus_refuses_absent_removal.
 
+(* Address rotation (recovery MsgRotateRecoveryAddress) of a validator that sits in no queue, onto an
+   unused address, and genesis export + import with somebody active are inside the alphabet ([good]):
+   export + import re-establishes the equality from any state of the invariant. *)
+Theorem C05_rotation_outside_queues_preserves_invariant :
+  forall cfg s v v', Inv s -> good_rotate s v v' -> Inv (fst (step cfg s (ORotate v v'))).
+Proof. exact Inv_rotate. Qed.
+Print Assumptions C05_rotation_outside_queues_preserves_invariant.
+Theorem C05_genesis_import_reestablishes_equality :
+  forall s, Inv s -> some_active_now s ->
+  Inv (fst (genesis_import s)) /\ snd (genesis_import s) = ROk /\
+  (forall k, In k (st_cset (fst (genesis_import s))) <-> exists v r, lookup v (st_vals s) = Some r /\ v_status r = SActive /\ v_cons r = k).
+Proof. exact genesis_import_reestablishes. Qed.
+Print Assumptions C05_genesis_import_reestablishes_equality.
+
+(* chk_sound: the spec checker of Model/C05Check.v reports nothing on the model's own end block, from
+   any state of the invariant and whatever its bookkeeping. *)
+Theorem C05_chk_sound_end_block :
+  forall c s, Inv s -> some_active (joined s) ->
+  let s' := fst (fst (end_block s)) in
+  end_block_clauses c s s'
+    (mkObs (snd (fst (end_block s))) [] [] [] None None None None None None
+           (Some (snd (end_block s), negb (st_halt s'), map (fun k => (k, 1)) (st_cset s')))) = [].
+Proof. exact c05_chk_sound_end_block. Qed.
+Print Assumptions C05_chk_sound_end_block.
+
 (* The decidable invariant and alphabet used for concrete states are sound. *)
 Theorem C05_decidable_invariant_sound : forall s, invb s = true -> Inv s.
 Proof. exact invb_sound. Qed.
@@ -105,6 +130,16 @@ Theorem C05_never_empty_refuted : ~ C05_statement_for [OEvidence [(0, 10, 1000)]
 Proof. exact never_empty_refuted. Qed.
 Print Assumptions C05_never_empty_refuted.
 
+Theorem C05_rotation_while_in_removing_queue_refuted : ~ C05_statement_for [OPause 1; ORotate 1 5; OEndBlock].
+Proof. exact rotate_while_queued_refuted. Qed.
+Print Assumptions C05_rotation_while_in_removing_queue_refuted.
+Theorem C05_rotation_while_in_reactivating_queue_refuted : ~ C05_statement_for [OUnpause 1; ORotate 1 5; OEndBlock].
+Proof. exact rotate_while_reactivating_refuted. Qed.
+Print Assumptions C05_rotation_while_in_reactivating_queue_refuted.
+Theorem C05_genesis_import_nobody_active_refuted : ~ C05_statement_for [OEvidence [(0, 10, 1000)]; OGenesis].
+Proof. exact genesis_import_empty_refuted. Qed.
+Print Assumptions C05_genesis_import_nobody_active_refuted.
+
 (* Non-vacuity: the genesis state satisfies the invariant; a six-block history with claims, pause,
    unpause, downtime, activation, evidence, unjail and an upgrade pause lies inside the alphabet and
    ends with four active validators known to the consensus engine. *)
@@ -116,3 +151,9 @@ Example C05_nonvacuous_result :
   let s := run cfg0 s_gen h_happy in
   Inv s /\ st_cset s = [0; 1; 2; 3] /\ st_halt s = false /\ map (fun e => v_status (snd e)) (st_vals s) = [SActive; SActive; SActive; SActive].
 Proof. exact h_happy_result. Qed.
+Example C05_nonvacuous_rotation_and_genesis :
+  goods cfg0 s_gen h_rotate_genesis /\
+  let s := run cfg0 s_gen h_rotate_genesis in
+  Inv s /\ st_cset s = [0; 1; 7] /\ st_halt s = false /\
+  map (fun e => (fst e, v_status (snd e), v_cons (snd e))) (st_vals s) = [(0, SActive, 0); (1, SActive, 7); (2, SJailed, 2); (5, SActive, 1)].
+Proof. split; [exact h_rotate_genesis_good|exact h_rotate_genesis_result]. Qed.
